@@ -411,6 +411,9 @@ def run(ctx):
         from vh import core
         sample = [wire(gen_case(rng, 4, 5)) for _ in range(150)]
         a = ctx.model(sample)
+        # the thorough tier rebuilt from clean only what Props/C10 needs: make sure the dispatcher's .vo files exist
+        targets = ' '.join(x[:-2] + '.vo' for x in core.coq_sources() if x.startswith(('Base/', 'Gen/', 'Model/')))
+        core.sh('timeout 1200 make -j4 %s && timeout 600 coqc -Q . KV Extract/Dispatch.v' % targets, cwd=core.COQ, timeout=1900)
         b = core.run_model_in_coq(sample, 'c10')
         if a != b:
             bad = next(i for i in range(len(a)) if a[i] != b[i])
